@@ -78,4 +78,14 @@ Utf8One(c) ==
   ELSE <<224 + (c \div 4096), 128 + ((c \div 64) % 64), 128 + (c % 64)>>
 Utf8(cps) == Flatten([i \in DOMAIN cps |-> Utf8One(cps[i])])
 
+\* Decoding (valid UTF-8 assumed; a stray byte is kept as it is)
+RECURSIVE Utf8Decode(_)
+Utf8Decode(b) ==
+  IF b = <<>> THEN <<>>
+  ELSE LET c == b[1] IN
+    IF c >= 240 /\ Len(b) >= 4 THEN <<(c - 240) * 262144 + (b[2] - 128) * 4096 + (b[3] - 128) * 64 + (b[4] - 128)>> \o Utf8Decode(SubSeq(b, 5, Len(b)))
+    ELSE IF c >= 224 /\ Len(b) >= 3 THEN <<(c - 224) * 4096 + (b[2] - 128) * 64 + (b[3] - 128)>> \o Utf8Decode(SubSeq(b, 4, Len(b)))
+    ELSE IF c >= 192 /\ Len(b) >= 2 THEN <<(c - 192) * 64 + (b[2] - 128)>> \o Utf8Decode(SubSeq(b, 3, Len(b)))
+    ELSE <<c>> \o Utf8Decode(Tail(b))
+
 =============================================================================
